@@ -1,2 +1,5 @@
-; ghost trace of observable deliveries: (kind, who, what, extra) records in order
-(declare-datatypes ((Trace 0)) (((tnil) (tsnoc (tinit Trace) (tkind Int) (ta Int) (tb Int) (tc Int)))))
+; ghost trace of observable deliveries: (kind, who, what, extra, payload) records in order
+;   kind 1: Appender.Append(event)   who = appender, what = event, extra = level code
+;   kind 2: Appender.Write(bytes)    who = appender, what = backing store, extra = length, payload = content
+;   kind 3: io.Writer.Write / (*os.File).Write on a sink
+(declare-datatypes ((Trace 0)) (((tnil) (tsnoc (tinit Trace) (tkind Int) (ta Int) (tb Int) (tc Int) (ts Str)))))
